@@ -534,6 +534,22 @@ def oracle_channelwise(ctx, N, nmax):
                 ctx.issue("violation", "FusionART.match_criterion_bin:!=all-channels",
                           f"match_criterion_bin {mb} vs module tests {bins}", dict(rep, x=x, c=c))
             cov.hit("public-choice-and-bin")
+            # the same with withheld channels (any classes): a skipped channel contributes 1.0 * its own gamma and
+            # passes vigilance; every presented channel keeps ITS gamma and its module's own test
+            if len(cls) > 1:
+                sk_ = sorted(r.sample(range(len(cls)), r.randint(1, len(cls) - 1)))
+                with quiet():
+                    Tsk, cache_sk = f.category_choice(x, w, f.params, skip_channels=list(sk_))
+                    mbsk, _ = f.match_criterion_bin(x, w, f.params, cache=deepcopy(cache_sk), op=op, skip_channels=list(sk_))
+                want = float(sum((1.0 * gam_[k_]) if k_ in sk_ else terms[k_] for k_ in range(len(cls))))
+                if not (abs(float(Tsk) - want) <= 1e-12 * max(1.0, abs(want))) and not (Tsk != Tsk and want != want):
+                    ctx.issue("violation", "FusionART.category_choice:skip:!=gamma-weighted-sum-of-presented-channels",
+                              f"skip {sk_}: category_choice {Tsk!r} vs sum over channels of gamma_k * (1 if skipped else module choice) "
+                              f"{want!r} (gammas {list(gam_)})", dict(rep, x=x, c=c, skip=sk_))
+                if bool(mbsk) != all(b_ for k_, b_ in enumerate(bins) if k_ not in sk_):
+                    ctx.issue("violation", "FusionART.match_criterion_bin:skip:!=all-presented-channels",
+                              f"skip {sk_}: match_criterion_bin {mbsk} vs module tests {bins}", dict(rep, x=x, c=c, skip=sk_))
+                cov.hit("public-choice-and-bin-skip")
             # tie of the public functions (exact classes, grid data), incl. skipped channels
             if not floats and all(c_ in EXACT_CH for c_ in cls) and all(s.get("beta", 1.0) == 1.0 for s in sp):
                 sk = sorted(r.sample(range(len(cls)), r.randint(0, len(cls) - 1))) if len(cls) > 1 and r.random() < 0.5 else []
@@ -683,6 +699,16 @@ def oracle_perm(ctx, N, nmax):
         if any(not same_W(a, b) for a, b in zip(runs[0][2], runs[1][2])):
             ctx.issue("violation", "FusionART:channel-permutation-changes-weights",
                       "per-module weights differ after permuting channels", rep)
+
+
+GEN_THEOREMS = ['fusion_positions', 'fusion_category_choice', 'fusion_match_criterion_bin', 'fusion_match_criterion_bin_none', 'fusion_match_bin_model', 'fusion_update', 'fusion_update_none', 'fusion_new_weight', 'fusion_add_weight', 'fusion_set_weight', 'fusion_add_weight_model', 'fusion_set_weight_model', 'fusion_match_tracking', 'fusion_W_get', 'fusion_W_get_model']
+
+
+def prepare(ctx):
+    """Translator tie (see gen_tie.py): FusionART's own methods are regenerated from the source on every run and proved
+    equal to the channel-wise definitions the property theorems are stated about"""
+    from .gen_tie import gen_prepare
+    gen_prepare(ctx, GEN_THEOREMS, 'FusionART.category_choice / match_criterion_bin / update / new_weight / _match_tracking / add_weight / set_weight / W and get_channel_position_tuples (ftrans -> ArtGen/Fusion.lean) = the channel-wise definitions of ArtModel/Fusion.lean (choiceSkip, matchBinSkip, rawUpdate, rawNew, modsAdd, modsSet, fusedW)')
 
 
 def run(ctx):
